@@ -5,6 +5,7 @@ mod c11;
 mod c13;
 mod c16;
 mod c17;
+mod c18;
 mod he;
 mod project;
 mod psets;
@@ -66,6 +67,7 @@ fn main() {
         }
         "c08" => c08::main(&args[2..]),
         "c17" => c17::main(&args[2..]),
+        "c18" => c18::main(&args[2..]),
         "c13" => c13::main(&args[2..]),
         "c09" => c09::main(&args[2..]),
         "c11" => c11::main(&args[2..]),
